@@ -237,7 +237,7 @@ func c09Valid(frag string) bool {
 }
 
 func checkC09(r *fw.Run) {
-	r.SetRule("seeded random hierarchies of 3-6 named struct types (embedding by value and by pointer up to depth 3, fields and methods with names shadowed at different depths, value and pointer receivers, some embedded pointers left nil); for every type every candidate site is generated and kept only if go/types accepts it: field selectors through values and pointers, method calls, method values bound before the receiver changes, method expressions T.m and (*T).m, methods on non-addressable values, assignment of values and pointers to four interpreted interfaces and to error, interfaces as parameters, comma-ok and panicking assertions from interface{} to every concrete type and pointer type, one type switch over values of all types with multi-type cases and nil; each site runs under its own recover; declarations are fed to the interpreter one at a time in source order (REPL style: order independence within one evaluation is property C16, not C09); oracle = trace equality with compiled Go; distinct = distinct program texts")
+	r.SetRule("seeded random hierarchies of 3-6 named struct types (embedding by value and by pointer up to depth 3, fields and methods with names shadowed at different depths, value and pointer receivers, some embedded pointers left nil); for every type every candidate site is generated and kept only if go/types accepts it: field selectors through values and pointers, method calls, method values bound before the receiver changes, method expressions T.m and (*T).m, methods on non-addressable values, assignment of values and pointers to four interpreted interfaces and to error, interfaces as parameters, comma-ok and panicking assertions from interface{} to every concrete type and pointer type, one type switch over values of all types with multi-type cases and nil; type switches over values of compiled types whose cases mix compiled interfaces (fmt.Stringer, error, io.Reader/Writer, io.ByteReader) and concrete types in seeded order, first match wins; each site runs under its own recover; declarations are fed to the interpreter one at a time in source order (REPL style: order independence within one evaluation is property C16, not C09); oracle = trace equality with compiled Go; distinct = distinct program texts")
 	r.Assume("go/types + cmd/compile 1.23.5 (language go1.18) decide which sites are valid and what they compute; interface-to-interface assertions on interpreted types are not generated (documented limitation); no recursive types")
 	o := e1Opts{}
 	// regression cells for the repaired receiver-kind defect (C09-method-expr-receiver-kind)
@@ -261,6 +261,10 @@ func checkC09(r *fw.Run) {
 	for i, e := range [][2]string{{"int", "3"}, {"string", "\"q\""}, {"float64", "1.5"}} {
 		src := strings.NewReplacer("E", e[0], "X", e[1]).Replace(c09NonStruct)
 		progs = append(progs, &Prog{ID: fmt.Sprintf("c09-nonstruct-%d", i), Src: src, Chunks: strings.Split(src, "\n//--\n"), Cell: "named-nonstruct"})
+	}
+	// type switches whose cases mix compiled interfaces and concrete types in random order: the first matching case wins
+	for i := 0; i < r.Pick(40, 1500); i++ {
+		progs = append(progs, c09TypeSwitchCompiled(i, rng))
 	}
 	for i, src := range regress {
 		progs = append(progs, &Prog{ID: fmt.Sprintf("c09-regress-%d", i), Src: src, Cell: "receiver-kind-regression"})
@@ -333,3 +337,29 @@ func §P() {
 	}
 }
 `
+
+func c09TypeSwitchCompiled(id int, rng *rand.Rand) *Prog {
+	cases := []string{"int", "string", "time.Duration", "fmt.Stringer", "error", "*bytes.Buffer", "io.Writer", "io.Reader", "float64", "[]int", "nil", "bool", "*strings.Reader", "io.ByteReader", "time.Month", "map[string]int", "func()"}
+	rng.Shuffle(len(cases), func(a, b int) { cases[a], cases[b] = cases[b], cases[a] })
+	n := 3 + rng.Intn(len(cases)-3)
+	var b strings.Builder
+	b.WriteString("func §sw(v interface{}) string {\nswitch x := v.(type) {\n")
+	for i := 0; i < n; i++ {
+		c := cases[i]
+		if i+1 < n && rng.Intn(5) == 0 {
+			// multi-type case: x keeps the static type of v
+			fmt.Fprintf(&b, "case %s, %s:\n_ = x\nreturn %q\n", c, cases[i+1], c+"|"+cases[i+1])
+			i++
+			continue
+		}
+		fmt.Fprintf(&b, "case %s:\n_ = x\nreturn %q\n", c, c)
+	}
+	if rng.Intn(3) != 0 {
+		b.WriteString("default:\n_ = x\nreturn \"default\"\n")
+	}
+	b.WriteString("}\nreturn \"none\"\n}\n//--\n")
+	b.WriteString("func §P() {\nvals := []interface{}{1, \"s\", time.Second, time.March, errors.New(\"e\"), &bytes.Buffer{}, strings.NewReader(\"r\"), 2.5, []int{1}, nil, true, map[string]int{}, func() {}, io.EOF, int8(3), os.ErrNotExist, fmt.Sprint(7)}\n")
+	b.WriteString("for i, v := range vals { rec(i, §sw(v)) }\n}\n")
+	src := b.String()
+	return &Prog{ID: fmt.Sprintf("c09-tswc-%d", id), Imports: []string{"bytes", "errors", "fmt", "io", "os", "strings", "time"}, Src: src, Chunks: strings.Split(src, "\n//--\n"), Cell: "typeswitch-compiled-interfaces-and-concrete-types"}
+}
